@@ -49,7 +49,7 @@ def _parenthesize(parentheses: str, elements) -> str:
 def _try_sort(iterable):
     try:
         return sorted(iterable)
-    except TypeError:
+    except Exception:  # noqa: BLE001  # comparison can raise anything, e.g. InvalidOperation for Decimal('NaN')
         return iterable
 
 
